@@ -113,11 +113,7 @@ func (h *Hub) ServeHTTP(w http.ResponseWriter, r *http.Request) {
 
 	// Check if the remote service is paired
 	service := h.ServiceForSKI(remoteService.SKI())
-	connectionStateDetail := service.ConnectionStateDetail()
-	if connectionStateDetail.State() == api.ConnectionStateQueued {
-		connectionStateDetail.SetState(api.ConnectionStateReceivedPairingRequest)
-		h.notifyPairingDetail(ski, connectionStateDetail)
-	}
+	h.setAndNotifyPairingState(ski, service, api.ConnectionStateReceivedPairingRequest, api.ConnectionStateQueued)
 
 	remoteService = service
 
